@@ -21,7 +21,7 @@ LEVEL_TEXT = (
     "any retention growing with >= 0.5 % of the fed octets crosses the bound. The bound is a generic object-graph measure and does not "
     "name attributes. Sampling of patterns and sizes, not proof."
 )
-RUNS = {"quick": 456, "thorough": 2408}
+RUNS = {"quick": 472, "thorough": 2432}
 CHUNK = {"quick": 2, "thorough": 2}
 BUDGET_S = {"quick": 120, "thorough": 3000}
 SELFTEST_RUNS = 12
@@ -42,8 +42,8 @@ MUST_FIRE = {"quick": ["pattern_all_flags", "pattern_slash_no_lf", "pattern_iden
 P1_TOKENS = [b"/ABC5xyz\r\n", b"/KAM5\r\n", b"\r\n", b"\n", b"1-0:1.8.0(000123.456*kWh)\r\n", b"\xff\xfe\r\n", b"1-0:1.7.0(\x80)\r\n", b"!\r\n", b"!1A2B\r\n", b"!zz\r\n", b"!!\r\n", b"! \r\n",
              b"/", b"/junk", b"x" * 40, b"/ABC5!x\r\n", b"\r", b"(", b"0-0:96.1.1(4B41)\n", b"!", b" \t\r\n", b"\x00\r\n", b"~}\r\n"]
 CONST = 64 * 1024
-HDLC_PATTERNS = ["all_flags", "flag_junk", "valid_frames", "never_ending_frame", "random", "random_ascii", "escape_flood", "flag_escape_alternating", "open_frame_then_flags", "open_frame_then_escapes", "open_frame_then_flag_escape", "valid_frames_single_flag", "invalid_frames_single_flag", "aborted_frames"]
-P1_PATTERNS = ["ident_no_end", "slash_no_lf", "ident_endless_lines", "valid_readouts", "random", "random_ascii", "ident_lines_repeated", "ident_endless_blank_lines", "ident_endless_lf", "lf_forever", "cr_forever", "ident_endless_bang_less_text", "ident_then_nonascii_line"]
+HDLC_PATTERNS = ["all_flags", "flag_junk", "valid_frames", "never_ending_frame", "random", "random_ascii", "escape_flood", "flag_escape_alternating", "open_frame_then_flags", "open_frame_then_escapes", "open_frame_then_flag_escape", "valid_frames_single_flag", "invalid_frames_single_flag", "aborted_frames", "junk_frames_varying"]
+P1_PATTERNS = ["ident_no_end", "slash_no_lf", "ident_endless_lines", "valid_readouts", "random", "random_ascii", "ident_lines_repeated", "ident_endless_blank_lines", "ident_endless_lf", "lf_forever", "cr_forever", "ident_endless_bang_less_text", "ident_then_nonascii_line", "valid_readouts_varying_ident", "ident_lines_varying", "varying_ident_no_end"]
 CHUNKS = [1, 64, 1024, 65536]
 
 
@@ -121,6 +121,8 @@ def block(sc) -> bytes:
                     continue
             out += (hdlc_ref.stuff(bytes(o)) if stuffing else bytes(o)) + b"\x7e"  # the closing flag is the next opening flag
         return bytes(out)
+    if p == "junk_frames_varying":  # complete (invalid) frames whose octets never repeat
+        return b"\x7e\xa0\x10\x03\x21\x13\x12\x34@@@@@@@@\x7e"
     if p == "aborted_frames":
         return (b"\x7e\xa0\x20\x03\x21\x13\x12\x34\x01\x02\x03\x7d") * 340
     if p == "never_ending_frame":
@@ -143,6 +145,14 @@ def block(sc) -> bytes:
         return b"/ABC5xyz\r\n\r\n1-0:1.8.0(000123.456*kWh)\r\n" * 100
     if p == "ident_lines_repeated":
         return b"/ABC5xyz\r\n" * 400
+    if p == "valid_readouts_varying_ident":  # every readout comes from "another meter": identification and values never repeat
+        from dst.world import p1_ref
+
+        return b"/ABC5@@@@@@@@\r\n\r\n1-0:1.8.0(@@@@@@@@*kWh)\r\n!\r\n"
+    if p == "ident_lines_varying":
+        return b"/ABC5@@@@@@@@\r\n"
+    if p == "varying_ident_no_end":
+        return b"/XYZ5@@@@@@@@\r\n" + b"1-0:1.8.0(000123.456*kWh)\r\n" * 330
     if p == "ident_then_nonascii_line":
         return b"/ABC5xyz\r\n\xff\xfe\x80\r\n" * 400
     if p == "ident_endless_blank_lines":
@@ -198,9 +208,12 @@ def execute(sc):
     sizes = []
     void = False
     # stream = pre + blk repeated; produce chunks without materialising it
+    varying = b"@@@@@@@@" in blk
     reps = (chunk // len(blk) + 2) if chunk > len(blk) else 2
     window = blk * reps
     offset = 0
+    counter = 0
+    pending = bytearray()
     call = 0
     if pre:
         try:
@@ -208,8 +221,15 @@ def execute(sc):
         except Exception:  # noqa: BLE001
             void = True
     while fed < total and not void and not viol:
-        data = window[offset : offset + chunk]
-        offset = (offset + chunk) % len(blk)
+        if varying:  # never-repeating content: every repetition of the block carries a fresh counter value
+            while len(pending) < chunk:
+                pending += blk.replace(b"@@@@@@@@", b"%08d" % (counter % 100000000))
+                counter += 1
+            data = bytes(pending[:chunk])
+            del pending[:chunk]
+        else:
+            data = window[offset : offset + chunk]
+            offset = (offset + chunk) % len(blk)
         try:
             reader.read(data)
         except Exception:  # noqa: BLE001 - C14's business
